@@ -76,6 +76,16 @@ Proof.
   - intros u [<-|[]]. now left.
 Qed.
 
+Lemma cmp_snippet_ok x sa ra sb rb neg cid op tp : ok x (cmp_snippet x sa ra sb rb neg cid op tp).
+Proof.
+  intros env rest Hx Hrest. unfold cmp_snippet. cbn [sn_du sn_value_uses app] in *.
+  apply safe_cons. split; [intros u [<-|[]]; exact Hx|]. apply safe_cons. split; [intros u [<-|[]]; right; exact Hx|].
+  apply safe_cons. split; [intros u [<-|[]]; right; now left|]. apply safe_cons. split; [intros u [<-|[]]; right; now left|].
+  apply safe_cons. split; [intros u [<-|[<-|[]]]; [right; now left|now left]|]. apply Hrest.
+  - intros u Hu. do 5 right. exact Hu.
+  - intros u [<-|[<-|[]]]; [right; now left|right; right; now left].
+Qed.
+
 (* the constraints of a branch, each followed by its trace binding *)
 Lemma branch_safe x : forall branch i env rest, In x env -> Forall (ok x) branch ->
   (forall env', incl env env' -> (forall j, i <= j < i + List.length branch -> In (result_var j) env') -> safe_from env' rest = true) ->
